@@ -290,3 +290,25 @@ func VerifC20_SlotDataRecordsBounded() {
 	_, recent := s.slotDataRecords[slot-1]
 	vnd.Assert(recent, "C20.records.recent-records-kept")
 }
+
+// VerifC17_SlotDataRecords: recording the data used for a slot (message job)
+// overlapping its lookup or clean-up (head event handler) has no unsynchronised
+// conflicting accesses.
+func VerifC17_SlotDataRecords() {
+	s := &Service{slotDataRecords: map[phase0.Slot]synccommitteemessenger.SlotData{}}
+	for i := phase0.Slot(0); i < 3; i++ {
+		s.slotDataRecords[100+i] = synccommitteemessenger.SlotData{}
+	}
+	other := vnd.Choose("other-operation", 2)
+	go s.UpdateSyncCommitteeDataRecord(200, phase0.Root{1}, nil)
+	go func() {
+		if other == 0 {
+			_, _ = s.GetDataUsedForSlot(101)
+		} else {
+			s.RemoveHistoricDataUsedForSlotVerification(200)
+		}
+	}()
+	left := vnd.Quiesce()
+	vnd.Assert(left == 0, "C17.records.everything-returns")
+	vnd.Cover("C17.records.overlap-explored")
+}
